@@ -9,16 +9,19 @@ Definition t_nop : text := [110; 111; 112]%N.
 (* "/* x" NL " y */" *)
 Definition c_two_lines : text := [47; 42; 32; 120; 10; 32; 121; 32; 42; 47]%N.
 (* the same comment as laid out by the first run: the continuation line starts at the code column *)
-Definition c_two_lines_laid_out : text := [47; 42; 32; 120; 10]%N ++ spaces 20 ++ [32; 121; 32; 42; 47]%N.
+Definition c_two_lines_laid_out : text := [47; 42; 32; 120; 10]%N ++ spaces 20 ++ [121; 32; 42; 47]%N.
 
-Lemma multiline_comment_refuted : exists o c1 c2 rest,
+(* the repaired F-C13a on the model: the laid-out comment (its continuation line now starts at the code column) is laid
+   out in exactly the same way again -- the blanks a continuation line starts with are dropped before it is placed *)
+Lemma multiline_comment_fixed : exists o c1 c2 rest,
   let cs c := [mkChunk (Some Comment) 0 c; mkChunk None 0 [NL]; mkChunk None 0 rest] in
+  contains_nl c1 = true /\ c2 <> c1 /\
   join_chunks (cs c1) o = spaces 20 ++ c2 ++ NL :: spaces 20 ++ rest /\
-  join_chunks (cs c2) o <> join_chunks (cs c1) o.
+  join_chunks (cs c2) o = join_chunks (cs c1) o.
 Proof.
-  exists default_options, c_two_lines, c_two_lines_laid_out, t_nop. split.
+  exists default_options, c_two_lines, c_two_lines_laid_out, t_nop. split; [reflexivity|]. split; [discriminate|]. split.
   - vm_compute. reflexivity.
-  - vm_compute. discriminate.
+  - vm_compute. reflexivity.
 Qed.
 
 (* ---------------------------------------------------------------- the guard of the re-chunking fixed point *)
